@@ -311,14 +311,16 @@ func main() {
 			res := consumer()
 			if it.Both && !res.Err && !res.Panic && !res.Hang {
 				pr := provider(res)
-				for k := 0; k < it.Reps && same(res, pr) && !res.Unstab; k++ {
+				// all repetitions are run: "unstable" and the first disagreeing provider result are both recorded
+				for k := 0; k < it.Reps; k++ {
 					c2 := consumer()
-					if !same(res, c2) || c2.Err || c2.Panic || c2.Hang {
+					if !res.Unstab && !same(res, c2) {
 						res.Unstab = true
 						res.Alt = c2.Api
-						break
 					}
-					pr = provider(c2)
+					if same(res, pr) && same(res, c2) {
+						pr = provider(c2)
+					}
 				}
 				res.HasPrv = true
 				res.Prov = &pr
